@@ -91,10 +91,23 @@ class Server:
 
     # ---- sending
     def send_raw(s, b):
+        """writes everything; the server's output is read only while its input pipe is full (so a client that pipelines a long
+        burst does not deadlock against a server that is blocked on its own output, and otherwise does not read at all)"""
         view = memoryview(b)
+        if not getattr(s, "_nb", False):
+            os.set_blocking(s.fd_in, False); s._nb = True
         while view:
             try:
-                k = os.write(s.fd_in, view)
+                k = os.write(s.fd_in, view[:1 << 16])
+            except BlockingIOError:
+                r, w, _ = select.select([s.fd_out], [s.fd_in], [], 30)
+                if r and not w:
+                    d = os.read(s.fd_out, 1 << 16)
+                    if not d: s._died()
+                    s.parser.feed(d)
+                elif not r and not w:
+                    raise Timeout("server reads no input and writes no output for 30 s")
+                continue
             except BrokenPipeError:
                 s._died()
             view = view[k:]
